@@ -150,6 +150,8 @@ def fam_trace(rng):
             u1.append(["wait", i + 1])
         elif r < 0.3:
             u1.append(["sleep", 1.0])
+        elif r < 0.42:
+            u1.append(["cancel", rng.randint(1, i + 1)])
     if fin == "shutdown_wait":
         u1 += [["shutdown", True, False]]
     elif fin == "shutdown_nowait":
@@ -543,7 +545,7 @@ def conformance(ctx, prop, classify):
     tampered = None
     for c, o, r in res:
         if r.get("ok") is True:
-            ev = exec_trace.project(o["decisions"], o["trace"])
+            ev = exec_trace.project(o["decisions"], o["trace"], c["scn"])
             idx = [i for i, e in enumerate(ev) if e["a"] == "cq.r.recv"]
             if idx and idx[0] + 1 < len(ev):
                 i = idx[0]
